@@ -100,7 +100,8 @@ impl ExecutorInner {
             !final(tls).panicked@ ==> ((res is Ok) == (final(tls).count_after_tasks@ == 0)),                                  //@ C06 #ok-exactly-when-everything-was-processed
             res matches Err(ExecutorError::UnprocessedMessages(n)) ==> n > 0 && n as int == final(tls).count_after_tasks@,     //@ C06 #unprocessed-count-exact
             // C06: the enclosing executor's count is handed back untouched (and never leaked in: precondition of run_tasks)
-            !final(tls).panicked@ ==> final(tls).msg_count == old(tls).msg_count,                                             //@ C06 #enclosing-count-preserved
+            // - on EVERY exit, a panic included: a handler of the enclosing simulation may catch the nested run's error and go on
+            final(tls).msg_count == old(tls).msg_count,                                                                        //@ C06 #enclosing-count-preserved
             !(res matches Err(ExecutorError::Timeout)),
         //@]
     {
